@@ -290,6 +290,7 @@ package rosmar
 //@   ensures [C02:writeWithMeta.cas-necessary]   result == nil ==> oldCas == cur
 //@   ensures [C02:writeWithMeta.cas-rejected]    oldCas != cur ==> result != nil && db == old(db) && (iscasmismatch(result) || isdberr(result) || isclosed(result))
 //@   ensures [C01,C05,C07,C14,C17:writeWithMeta.stored] result == nil ==> sameDoc(r2, Row{present: true, rowid: 0, value: body, cas: newCas, exp: absexp(exp, now), xattrs: xattrs, isJSON: b2i(isJSON), tombstone: b2i(isDeletion), rev: nextrev(r)})
+//@   ensures [C08,C15:writeWithMeta.posts-in-commit-order] count("post") == 1 ==> onecritical("commit", "post", "utex")
 //@   ensures [C08,C17:writeWithMeta.event]           result == nil ==> lenlist(posted) == 1 && posted[0] == eventOf(key, r2) && postsAfterCommit()
 //@   ensures [C12:writeWithMeta.lastcas]         result == nil ==> collLast(c.id) >= newCas
 //@   ensures [C04,C10:writeWithMeta.mark-never-lowered] bucketLastCas >= old(bucketLastCas) && forall i: Int :: collLast(i) >= old(collLast(i))
@@ -1052,6 +1053,7 @@ package rosmar
 //@   ensures [C03,C04,C08,C15:withNewCas.draw-in-txn]     count("callback") == 1 ==> count("hlcnow") == 1 && casDrawnInTxn() && callbackarg(1) == newCas && newCas > old(hlc.highestTime)
 //@   ensures [C04,C10,C12:withNewCas.lastcas] result == nil ==> committed && bucketLastCas == newCas && collLast(c.id) == newCas
 //@   ensures [C08:withNewCas.posts-after-commit] count("post") <= 1 && postsAfterCommit() && (count("post") == 1 ==> result == nil)
+//@   ensures [C08,C15:withNewCas.posts-in-commit-order] count("post") == 1 ==> onecritical("commit", "post", "utex")
 //@   ensures [C08:withNewCas.posts-callback-event] result == nil && !isnull(cbret(0)) ==> count("post") == 1
 //@   ensures [C01,C10:withNewCas.error-rolls-back] result != nil ==> db == old(db) && count("post") == 0
 //@   ensures [C03,C10:withNewCas.onetxn]      oneTxn() && sqlAllInTxn() && lockedThroughout("c.bucket.mutex")
